@@ -5,7 +5,8 @@
                                integer literals (comparison / && || ! / + * / % / parentheses) becomes  in_place (size word : Z) : bool,
                                e.g. `sizeof(T)<=sizeof(void*)` -> `(size <=? word)`; coq/C20/Fits.v proves  in_place s 8 = true -> s <= 8  for ALL s > 0
                                (an object stored in the holder's word fits into it) - a predicate that admits a larger size breaks that proof.
-                               An expression outside this grammar (or one using `-`: unsigned wrap-around) is a problem.
+                               `a - b` on size_t operands is translated exactly (2^64 is added when a < b: unsigned wrap-around); `+` and `*` are
+                               not wrapped (sizes are far below 2^63).  An expression outside this grammar is a problem.
      base_vtable(const T*)  -> vtable_select(bool2type<0>(), x)                               becomes base_inplace
      vtable_select(bool2type<0>) returns &VTable<T>::vtable_s, <1> returns &OptVTable<T>::vtable_s
      VTable<T>::vtable_s[0] = 0, OptVTable<T>::vtable_s[0] = 0x1   (slot 0 = call_extract tag)
@@ -82,7 +83,7 @@ class PredError(Exception):
 
 def pred_to_coq(txt):
     """C++ constant expression over sizeof(T) / sizeof(void*) / integer literals -> (Coq term of type bool over `size` and `word`, normalised text).
-    Types are tracked: arithmetic is Z (all operands are non-negative: size_t), comparisons / logic are bool.  Raises PredError."""
+    Types are tracked: arithmetic is Z (size_t operands are non-negative; `-` adds 2^64 when it would go below 0), comparisons / logic are bool.  Raises PredError."""
     tok_rx = re.compile(r'\s*(sizeof\s*\(\s*T\s*\)|sizeof\s*\(\s*(?:const\s+)?void\s*(?:const\s*)?\*\s*\)|0[xX][0-9a-fA-F]+[uUlL]*|\d+[uUlL]*|<=|>=|==|!=|&&|\|\||[-+*/%<>!()])')
     toks = []
     pos = 0
@@ -110,7 +111,7 @@ def pred_to_coq(txt):
         return e[0] if e[1] == 'b' else '(negb (%s =? 0))' % e[0]
 
     def as_int(e):
-        if e[1] != 'z':
+        if e[1] not in ('z', 'i'):
             raise PredError('a truth value is used as a number')
         return e[0]
 
@@ -145,10 +146,16 @@ def pred_to_coq(txt):
         e = p_term()
         while peek() in ('+', '-'):
             o = eat()
-            if o == '-':
-                raise PredError("'-' on size_t operands (wraps around) is not translated")
             r = p_term()
-            e = ('(%s + %s)' % (as_int(e), as_int(r)), 'z')
+            a, b = as_int(e), as_int(r)
+            lit = e[1] == 'i' and r[1] == 'i'          # int literals only: plain int arithmetic
+            if o == '+':
+                e = ('(%s + %s)' % (a, b), 'i' if lit else 'z')
+            elif lit:
+                e = ('(%s - %s)' % (a, b), 'i')
+            else:
+                # size_t subtraction: exact when a >= b, otherwise 2^64 is added (unsigned wrap-around; LP64: static_assert in the harness)
+                e = ('((%s - %s) + 18446744073709551616 * Z.b2z (%s <? %s))' % (a, b, a, b), 'z')
         return e
 
     def p_term():
@@ -156,7 +163,7 @@ def pred_to_coq(txt):
         while peek() in ('*', '/', '%'):
             o = eat()
             r = p_un()
-            e = ('(%s %s %s)' % (as_int(e), {'*': '*', '/': '/', '%': 'mod'}[o], as_int(r)), 'z')
+            e = ('(%s %s %s)' % (as_int(e), {'*': '*', '/': '/', '%': 'mod'}[o], as_int(r)), 'i' if (e[1] == 'i' and r[1] == 'i') else 'z')
         return e
 
     def p_un():
@@ -176,7 +183,7 @@ def pred_to_coq(txt):
         if t.startswith('sizeof('):
             return ('word', 'z')
         if re.match(r'^(0[xX][0-9a-fA-F]+|\d+)[uUlL]*$', t):
-            return ('%d' % int(re.sub(r'[uUlL]+$', '', t), 0), 'z')
+            return ('%d' % int(re.sub(r'[uUlL]+$', '', t), 0), 'i' if re.match(r'^(0[xX][0-9a-fA-F]+|\d+)$', t) else 'z')
         raise PredError('unexpected token %r' % t)
 
     e = p_or()
